@@ -204,6 +204,9 @@ const SIDE_KS: &str = "side";
 async fn run(case: &Case, net: e3::Net) -> Outcome {
     let layout = Layout { nodes: case.nodes.clone(), repair_interval: Duration::from_secs(5), storage_latency_ms: case.storage_latency_ms.clone() };
     e3::set_second_store(case.second_store);
+    // a quarter of the cases: every node binds one address and advertises another (since the seeded change `C06m`)
+    let elsewhere = case.seed & 6 == 6;
+    e3::set_listen_elsewhere(elsewhere);
     let nodes = e3::start_cluster(&layout).await;
     let t0 = tokio::time::Instant::now();
     let ks = ks_name(0);
@@ -403,6 +406,9 @@ async fn run(case: &Case, net: e3::Net) -> Outcome {
     check_stores_separate(&nodes, "at the end")?;
     if case.second_store != 0 {
         labels.push("two_store_extensions");
+    }
+    if elsewhere {
+        labels.push("listen_addr_differs_from_public_addr");
     }
 
     let dcs: BTreeSet<&String> = case.nodes.iter().map(|(_, d)| d).collect();
